@@ -914,7 +914,47 @@ func rh5Cleanup(w *World) {
 	d := &Dataflow{G: g, Must: true, Init: Facts{}, Transfer: func(n ast.Node, in Facts) Facts { return lockTransfer(info, n, in) }}
 	d.Run()
 	found := false
+	// a deferred closure that calls cleanup runs at function exit, before the deferred Unlock that
+	// was registered earlier (LIFO): it is under the lock if the lock is held where it is
+	// registered and the function never unlocks explicitly
+	callsCleanup := func(n ast.Node) *ast.CallExpr {
+		var hit *ast.CallExpr
+		ast.Inspect(n, func(y ast.Node) bool {
+			if c, ok := y.(*ast.CallExpr); ok && hit == nil {
+				if id, ok := ast.Unparen(c.Fun).(*ast.Ident); ok && id.Name == "cleanup" {
+					hit = c
+				}
+			}
+			return hit == nil
+		})
+		return hit
+	}
+	explicitUnlock := false
+	ast.Inspect(ev.Decl.Body, func(y ast.Node) bool {
+		if _, isDefer := y.(*ast.DeferStmt); isDefer {
+			return false
+		}
+		if c, ok := y.(*ast.CallExpr); ok {
+			if sel, ok := ast.Unparen(c.Fun).(*ast.SelectorExpr); ok && sel.Sel.Name == "Unlock" && strings.HasSuffix(render(sel.X), "dirty") {
+				explicitUnlock = true
+			}
+		}
+		return true
+	})
 	d.Walk(func(_ *cfg.Block, n ast.Node, before Facts) {
+		if ds, ok := n.(*ast.DeferStmt); ok {
+			if fl, ok := ds.Call.Fun.(*ast.FuncLit); ok {
+				if c := callsCleanup(fl.Body); c != nil {
+					found = true
+					if before["W:e.dirty"] && !explicitUnlock {
+						w.ok("cleanup-under-lock", c.Pos(), "the cleanup callback runs in a closure deferred while e.dirty is held exclusively and released only by an earlier-registered deferred Unlock: no Run can observe the state between eviction and cleanup")
+					} else {
+						w.violation("cleanup-under-lock", c.Pos(), "the deferred cleanup is registered with lock set "+before.String()+" (or the function unlocks explicitly before returning): a concurrent Run can memoize stale inputs between the eviction and the cleanup")
+					}
+				}
+			}
+			return
+		}
 		inspectPost(n, func(x ast.Node) {
 			c, ok := x.(*ast.CallExpr)
 			if !ok {
@@ -942,6 +982,14 @@ func rh5Cleanup(w *World) {
 		cd.Transfer = func(n ast.Node, in Facts) Facts {
 			out := in
 			if _, isGo := n.(*ast.GoStmt); isGo {
+				return out
+			}
+			if ds, ok := n.(*ast.DeferStmt); ok {
+				// a deferred closure that calls cleanup (under its own nil test) settles every
+				// later exit
+				if fl, ok := ds.Call.Fun.(*ast.FuncLit); ok && callsCleanup(fl.Body) != nil {
+					return out.with("settled")
+				}
 				return out
 			}
 			inspectPost(n, func(x ast.Node) {
